@@ -66,7 +66,7 @@ class ItemSpec:
         self.strip_generics = False
 
     def loop(self, n):
-        return self.loops.setdefault(n, {'ghost': None, 'invariants': [], 'decreases': None})
+        return self.loops.setdefault(n, {'ghost': None, 'invariants': [], 'decreases': None, 'inv_except_break': [], 'ensures': []})
 
 
 def module_of(path):
@@ -200,7 +200,7 @@ def parse_template(path, specs_dir, seen=None, contracts_only=False):
         elif d.startswith('raw_sig '):
             cur.raw_sig.append(d[len('raw_sig '):])
         elif d.startswith('loop '):
-            mo = re.match(r'^loop\s+(\d+)\s+(ghost|invariant|decreases)\s+(.*)$', d)
+            mo = re.match(r'^loop\s+(\d+)\s+(ghost|invariant_except_break|invariant|ensures|decreases)\s+(.*)$', d)
             if not mo:
                 raise UnitError('%s:%d: bad loop directive' % (path, i + 1))
             n = int(mo.group(1))
@@ -214,7 +214,8 @@ def parse_template(path, specs_dir, seen=None, contracts_only=False):
                 if not m2:
                     raise UnitError('%s:%d: invariant needs a label' % (path, i + 1))
                 cl = [m2.group(1), m2.group(2)]
-                lp['invariants'].append(cl)
+                key = {'invariant': 'invariants', 'invariant_except_break': 'inv_except_break', 'ensures': 'ensures'}[mo.group(2)]
+                lp[key].append(cl)
                 last_clause = cl
         elif d.startswith('ghost '):
             mo = re.match(r'^ghost\s+(.*?)\s*::\s*(.*)$', d)
@@ -388,9 +389,17 @@ def _inject_body(body, spec):
                 raise UnitError('%s loop %d is not a for loop' % (spec.id, n))
             inserts.append((L['in_pos'], 0, ' %s:' % lp['ghost']))
         ann = []
+        if lp.get('inv_except_break'):
+            ann.append('\n        invariant_except_break')
+            for label, expr in lp['inv_except_break']:
+                ann.append('            /*@C:%s::loop%d.%s@*/ %s,' % (spec.id, n, label, expr))
         if lp['invariants']:
             ann.append('\n        invariant')
             for label, expr in lp['invariants']:
+                ann.append('            /*@C:%s::loop%d.%s@*/ %s,' % (spec.id, n, label, expr))
+        if lp.get('ensures'):
+            ann.append('\n        ensures')
+            for label, expr in lp['ensures']:
                 ann.append('            /*@C:%s::loop%d.%s@*/ %s,' % (spec.id, n, label, expr))
         if lp['decreases']:
             ann.append('        decreases %s,' % lp['decreases'])
@@ -520,7 +529,8 @@ def process_item(repo, spec, mutations=None, force_false=False):
             'line_start': item.line, 'line_end': item.line + nlines - 1, 'sha256': sha,
             'rewrites': log, 'external_body': spec.external_body, 'from_other_unit': spec.from_other_unit, 'nloops': 0,
             'requires': [l for l, _ in spec.requires], 'ensures': [l for l, _ in spec.ensures],
-            'invariants': ['loop%d.%s' % (n, l) for n, lp in spec.loops.items() for l, _ in lp['invariants']]}
+            'invariants': ['loop%d.%s' % (n, l) for n, lp in spec.loops.items()
+                           for l, _ in (lp['invariants'] + lp.get('inv_except_break', []) + lp.get('ensures', []))]}
     if item.kind != 'fn':
         out = text
     else:
